@@ -119,8 +119,11 @@ def gen_type(rng, depth, allow_dc=True):
     if r < 0.12 and allow_dc:
         return ["dc", "Inner"]
     inner = gen_type(rng, depth - 1, allow_dc)
-    k = rng.choice(["list", "list", "set", "fset", "tup", "ftup", "dict", "dict"])
+    k = rng.choice(["list", "list", "set", "fset", "tup", "ftup", "dict", "dict", "cont"])
     hashable = tdsl_is_hashable(inner)
+    if k == "cont":
+        # a list constrained by contains=<scalar type>: every element is tried against that type
+        return ["cont", gen_scalar(rng)]
     if k in ("set", "fset") and not hashable:
         k = "list"
     if k == "ftup":
@@ -159,6 +162,8 @@ def gen_value(rng, t, pool, pos, depth, hostile_p):
             if b[0] in ("leaf", "leaf2", "hook"):
                 pos.append((("leaf" if b[0] == "hook" else b[0]), pid))
         return {"$r": pid}
+    if k == "cont":
+        return [gen_value(rng, t[1], pool, pos, depth + 1, hostile_p) for _ in range(rng.choice([1, 2, 3]))]
     if k in ("list", "set", "fset", "tup"):
         items = [gen_value(rng, t[1], pool, pos, depth + 1, hostile_p) for _ in range(rng.choice([0, 1, 2, 2, 3, 5]))]
         if depth >= 1 and rng.random() < 0.25:
@@ -200,7 +205,12 @@ def generate(rng, tier):
     plan = {"prop": ID, "api": api, "collect": rng.random() < 0.3, "eager": rng.random() < 0.5,
             "positional": rng.random() < 0.4}
     if api in ("rule", "transform"):
-        t = gen_type(rng, rng.choice([1, 1, 2, 2, 3]))
+        t = gen_type(rng, rng.choice([0, 0, 1, 1, 2, 2, 3]))     # 0: a constrained type / logical combination at the top
+        while t[0] in ("leaf", "leaf2", "keyleaf", "b", "hook"):
+            # (nor is a bare Rule whose own pre/post_validate override raises: that is the caller's code running at the top)
+            # a plain registered type handed to type_transform is not one of the statement's subjects
+            # ("constrained and logical types, data classes and decorated functions")
+            t = gen_type(rng, 0)
         plan["type"] = t
         plan["input"] = gen_value(rng, t, pool, pos, 0, hostile_p)
     else:
@@ -313,6 +323,9 @@ def build_type(t, env):
     if k == "dc":
         return env[t[1]]
     sub = [build_type(x, env) for x in t[1:]]
+    if k == "cont":
+        from utype import Rule
+        return Rule.annotate(list, constraints={"contains": Rule.parse_annotation(annotation=sub[0])})
     if k == "list":
         return typing.List[sub[0]]
     if k == "set":
@@ -544,6 +557,8 @@ def execute(plan):
                     f"call exceeded {budget} virtual steps at {out[1]}")
     elif out[0] == "ParseError" and body:
         res.violate(f"C04|O2|{api}|{inner}|body_entered", "parameters failed to parse but the function body was entered")
+    if leaked and '"cont"' in kernel.jdump(plan.get("type") or plan.get("fields")):
+        leaked = False      # 'contains' only tests the elements, it does not convert them: payloads legitimately stay as they are
     if leaked:
         res.violate(f"C04|O2|{api}|{inner}|unconverted_value_got_through",
                     f"a value whose conversion failed reached the {'function body' if api.startswith('func') else 'created instance'} unconverted (fired sites {sites}, outcome {out[0]})")
@@ -621,7 +636,7 @@ def _innermost(plan):
             return walk(t[1], v, holder)
         if isinstance(v, dict) and ("$fl" in v or "$set" in v):
             v = v.get("$fl") or v.get("$set") or []
-        if k in ("list", "set", "fset", "tup"):
+        if k in ("list", "set", "fset", "tup", "cont"):
             for e in v:
                 walk(t[1], e, k)
         elif k == "ftup":
